@@ -20,7 +20,7 @@ def gen(rng, adversarial=False):
     a = la * np.array([np.sin(ang), np.cos(ang)])
     b = lb * np.array([np.sin(ang + d), np.cos(ang + d)])
     zero = rng.uniform(40, 90, 2)
-    n = int(rng.integers(4, 26))
+    n = int(rng.integers(4, 26)) if rng.random() < 0.85 else 3          # also exactly three inliers (a full-rank fit through 3 points)
     while True:
         cand = np.array([(i, j) for i in range(-4, 5) for j in range(-4, 5)])
         idx = cand[rng.permutation(len(cand))[:n]]
@@ -49,6 +49,8 @@ def gen(rng, adversarial=False):
         w = np.append(w, rng.uniform(0, mw * 0.99) if rng.random() < 0.7 else np.nan)
         kinds.append('weak')
         true_idx.append(None)
+    if rng.random() < 0.3:
+        w[int(rng.integers(0, n))] = mw              # an elevation exactly at the threshold counts (>= min_weight)
     perm = rng.permutation(len(pos))
     pos, w = pos[perm], w[perm]
     kinds = [kinds[i] for i in perm]
